@@ -18,7 +18,16 @@
 (*                                                             at most 254     *)
 (*  v5r1      opcode:uint32 wallet_id:uint32 valid_until seqno                 *)
 (*            out_actions:(Maybe ^(OutList n)) has_other_actions:(## 1)        *)
-(*            signature:bits512                                at most 255     *)
+(*            other_actions:(ActionList n m) signature:bits512 at most 255     *)
+(*            action_list_extended$_ action:ExtendedAction prev:^(ActionList)  *)
+(*            action_add_ext#02 addr:MsgAddressInt | action_delete_ext#03      *)
+(*            addr:MsgAddressInt | action_set_signature_auth_allowed#04        *)
+(*            allowed:(## 1).  With has_other_actions = 1 the FIRST extended   *)
+(*            action is stored in place right after the flag (the contract     *)
+(*            reads its 8-bit tag there); every further one in the single      *)
+(*            extra reference of the cell holding the previous one; the last   *)
+(*            cell of the chain has no reference.  v5 beta's library entry     *)
+(*            points cannot request extended actions (flag always 0).          *)
 (*  OutList   out_list_empty$_ = OutList 0                                     *)
 (*            out_list$_ prev:^(OutList n) action:OutAction = OutList (n + 1)  *)
 (*            action_send_msg#0ec3c86d mode:(## 8) out_msg:^(MessageRelaxed Any)*)
@@ -139,10 +148,36 @@ HmEdge(T, i, n, prefix) ==
             ELSE LET rgt == HmEdge(T, c.r[2], m - 1, key \o <<1>>) IN
                  IF ~rgt.ok THEN rgt ELSE [ok |-> TRUE, items |-> lft.items \o rgt.items]
 
+\* ------------------------------------------------- wallet v5 extended actions
+\* one ExtendedAction at offset p of bits b: [ok, p (end offset), a]; a = [kind, wc (8 bits), addr (256 bits), allowed (0/1)]
+\* (an extension address is a MsgAddressInt: addr_std$10 without anycast is the only form a request of this property has)
+ExtActionAt(b, p) ==
+  IF p + 8 > Len(b) THEN Fail("xact:tag")
+  ELSE LET tag == BitsAt(b, p, 8) IN
+  IF tag \in {HexBits("02"), HexBits("03")} THEN
+    IF p + 275 > Len(b) \/ BitsAt(b, p + 8, 3) # <<1, 0, 0>> THEN Fail("xact:addr")
+    ELSE [ok |-> TRUE, p |-> p + 275,
+          a |-> [kind |-> IF tag = HexBits("02") THEN "add" ELSE "remove", wc |-> BitsAt(b, p + 11, 8), addr |-> BitsAt(b, p + 19, 256), allowed |-> 0]]
+  ELSE IF tag = HexBits("04") THEN
+    IF p + 9 > Len(b) THEN Fail("xact:flag")
+    ELSE [ok |-> TRUE, p |-> p + 9, a |-> [kind |-> "sigauth", wc |-> <<>>, addr |-> <<>>, allowed |-> b[p + 9]]]
+  ELSE Fail("xact:tag")
+\* the actions after the first: the cell holds exactly one action and at most one reference (to the next)
+RECURSIVE ExtChain(_, _, _)
+ExtChain(T, i, fuel) ==
+  LET c == T[i] IN
+  IF c.x # Ordinary \/ fuel = 0 THEN Fail("xact:chain")
+  ELSE LET a == ExtActionAt(c.b, 0) IN
+  IF ~a.ok THEN a
+  ELSE IF a.p # Len(c.b) \/ Len(c.r) > 1 THEN Fail("xact:cell")
+  ELSE IF Len(c.r) = 0 THEN [ok |-> TRUE, l |-> <<a.a>>]
+  ELSE LET rest == ExtChain(T, c.r[1], fuel - 1) IN
+       IF ~rest.ok THEN rest ELSE [ok |-> TRUE, l |-> <<a.a>> \o rest.l]
+
 \* -------------------------------------------------------------- Extract
 \* Extract(v, T, sl): strict reading of a signed body of version v stored in slice sl.
 \*   [ok, sig (512 bits), op (v5: 32 bits), wid (32 / 80 bits), vu (32 bits), seqno (32 bits | <<>>),
-\*    qid (64 bits | <<>>), msgs (<<[mode, c]>> in sending order)]
+\*    qid (64 bits | <<>>), msgs (<<[mode, c]>> in sending order), ext (extended actions, the in-place one first)]
 \* Any deviation from the prescribed bits and references (trailing bits, missing / extra references,
 \* wrong tags, flags that announce data which is not requested) gives [ok |-> FALSE, why].
 NoBits == <<>>
@@ -152,16 +187,16 @@ Extract(v, T, sl) ==
   CASE f = "v3" ->
          IF n # 608 + 8 * nr THEN Fail("v3:shape")
          ELSE [ok |-> TRUE, sig |-> BitsAt(b, 0, 512), op |-> NoBits, wid |-> BitsAt(b, 512, 32), vu |-> BitsAt(b, 544, 32),
-               seqno |-> BitsAt(b, 576, 32), qid |-> NoBits, msgs |-> ModesAndRefs(b, 608, sl.r)]
+               seqno |-> BitsAt(b, 576, 32), qid |-> NoBits, msgs |-> ModesAndRefs(b, 608, sl.r), ext |-> <<>>]
     [] f = "v4" ->
          IF n # 616 + 8 * nr THEN Fail("v4:shape")
          ELSE IF BitsAt(b, 608, 8) # ZeroBits(8) THEN Fail("v4:op")
          ELSE [ok |-> TRUE, sig |-> BitsAt(b, 0, 512), op |-> NoBits, wid |-> BitsAt(b, 512, 32), vu |-> BitsAt(b, 544, 32),
-               seqno |-> BitsAt(b, 576, 32), qid |-> NoBits, msgs |-> ModesAndRefs(b, 616, sl.r)]
+               seqno |-> BitsAt(b, 576, 32), qid |-> NoBits, msgs |-> ModesAndRefs(b, 616, sl.r), ext |-> <<>>]
     [] f = "highload" ->
          IF n # 609 THEN Fail("highload:shape")
          ELSE LET base == [ok |-> TRUE, sig |-> BitsAt(b, 0, 512), op |-> NoBits, wid |-> BitsAt(b, 512, 32),
-                           vu |-> BitsAt(b, 544, 32), seqno |-> NoBits, qid |-> BitsAt(b, 544, 64)] IN
+                           vu |-> BitsAt(b, 544, 32), seqno |-> NoBits, qid |-> BitsAt(b, 544, 64), ext |-> <<>>] IN
               IF b[609] = 0 THEN (IF nr # 0 THEN Fail("highload:empty-dict-with-ref") ELSE base @@ [msgs |-> <<>>])
               ELSE IF nr # 1 THEN Fail("highload:dict-ref")
               ELSE LET d == HmEdge(T, sl.r[1], 16, <<>>) IN
@@ -175,16 +210,23 @@ Extract(v, T, sl) ==
          ELSE LET ol == OutListOf(T, sl.r[1], 256) IN
               IF ~ol.ok THEN ol
               ELSE [ok |-> TRUE, sig |-> BitsAt(b, 177, 512), op |-> BitsAt(b, 0, 32), wid |-> BitsAt(b, 32, 80), vu |-> BitsAt(b, 112, 32),
-                    seqno |-> BitsAt(b, 144, 32), qid |-> NoBits, msgs |-> ol.l]
+                    seqno |-> BitsAt(b, 144, 32), qid |-> NoBits, msgs |-> ol.l, ext |-> <<>>]
     [] f = "v5r1" ->
-         IF n # 642 THEN Fail("v5r1:shape")
-         ELSE IF b[130] # 0 THEN Fail("v5r1:extended-actions")
-         ELSE LET base == [ok |-> TRUE, sig |-> BitsAt(b, 130, 512), op |-> BitsAt(b, 0, 32), wid |-> BitsAt(b, 32, 32),
-                           vu |-> BitsAt(b, 64, 32), seqno |-> BitsAt(b, 96, 32), qid |-> NoBits] IN
-              IF b[129] = 0 THEN (IF nr # 0 THEN Fail("v5r1:no-actions-with-ref") ELSE base @@ [msgs |-> <<>>])
-              ELSE IF nr # 1 THEN Fail("v5r1:actions-ref")
-              ELSE LET ol == OutListOf(T, sl.r[1], 256) IN
-                   IF ~ol.ok THEN ol ELSE base @@ [msgs |-> ol.l]
+         IF n < 642 THEN Fail("v5r1:shape")
+         ELSE LET hasOut == b[129] = 1
+                  hasX   == b[130] = 1
+                  first  == IF hasX THEN ExtActionAt(SubSeq(b, 1, n - 512), 130) ELSE [ok |-> TRUE, p |-> 130]
+                  nout   == IF hasOut THEN 1 ELSE 0
+              IN IF ~first.ok THEN first
+              ELSE IF first.p + 512 # n THEN Fail("v5r1:shape")                      \* nothing between the action and the signature
+              ELSE IF nr - nout \notin {0, 1} \/ (nr - nout = 1 /\ ~hasX) THEN Fail("v5r1:refs")
+              ELSE LET rest == IF nr - nout = 1 THEN ExtChain(T, sl.r[nr], 255) ELSE [ok |-> TRUE, l |-> <<>>]
+                       ol   == IF hasOut THEN OutListOf(T, sl.r[1], 256) ELSE [ok |-> TRUE, l |-> <<>>] IN
+                   IF ~rest.ok THEN rest
+                   ELSE IF ~ol.ok THEN ol
+                   ELSE [ok |-> TRUE, sig |-> BitsAt(b, n - 512, 512), op |-> BitsAt(b, 0, 32), wid |-> BitsAt(b, 32, 32),
+                         vu |-> BitsAt(b, 64, 32), seqno |-> BitsAt(b, 96, 32), qid |-> NoBits, msgs |-> ol.l,
+                         ext |-> (IF hasX THEN <<first.a>> ELSE <<>>) \o rest.l]
 
 \* ------------------------------------------------------------ signed part
 HasSignature(sl) == Len(sl.b) >= 512
@@ -197,7 +239,7 @@ SignedPart(v, T) == [T EXCEPT ![1] = SliceCell(T, SignedSlice(v, SliceOf(T, 1)))
 SignedHash(v, T, I, sl) == SliceHash(T, I, SignedSlice(v, sl))
 Verifies(v, T, I, sl, pub) == HasSignature(sl) /\ EdVerify(pub, SignedHash(v, T, I, sl), BitsToBytes(SignatureBits(v, sl)))
 
-\* params = [wid (bits), vu (decimal), seqno (decimal), op (bits, v5), msgs (<<[mode, h (32-byte hash)]>>)]
+\* params = [wid (bits), vu (decimal), seqno (decimal), op (bits, v5), msgs (<<[mode, h (32-byte hash)]>>), ext (<<extended actions>>)]
 \* BodyLayoutOK: the body has exactly the prescribed bits and references for these parameters. Free: the signature
 \* bits, the low 32 bits of a highload query id, dictionary label forms and keys, `nothing` vs an empty list in v5r1.
 MsgsOf(I, ex) == [i \in 1..Len(ex.msgs) |-> [mode |-> ex.msgs[i].mode, h |-> ReprHash(I[ex.msgs[i].c])]]
@@ -210,6 +252,7 @@ LayoutOK(v, T, I, sl, params) ==
   /\ (IsV5(v) => ex.op = params.op)
   /\ Len(ex.msgs) <= MaxMsgs(v)
   /\ MsgsOf(I, ex) = params.msgs
+  /\ ex.ext = params.ext
 BodyLayoutOK(v, T, params) == LayoutOK(v, T, InfoTable(T), SliceOf(T, 1), params)
 
 \* info of every cell of T2, where T2 differs from T (infos I) only in row idx: only ancestors of idx are re-hashed
